@@ -100,6 +100,7 @@ fn err_name(r: &Result<(), Error>) -> &'static str {
 			"branch in cycle" => "branch",
 			"cycle dead ends" => "deadend",
 			"cycle too short" => "tooshort",
+			"cycle does not close" => "noclose",
 			_ => "other",
 		},
 		Err(_) => "othererr",
@@ -116,6 +117,7 @@ fn err_char(name: &str) -> char {
 		"branch" => 'R',
 		"deadend" => 'D',
 		"tooshort" => 'S',
+		"noclose" => 'C',
 		"hang" => 'H',
 		"panic" => 'P',
 		_ => '?',
@@ -275,7 +277,7 @@ impl Stats {
 		}
 		if self.hang_predicted > 0 {
 			out.raw(&format!(
-				"#STAT {} cuckarood non-terminating inputs: predicted={} of which confirmed on the real code by a killed child process={}",
+				"#STAT {} cuckarood inputs on which the unrepaired walk would spin forever: {} (child-process probes that hung: {})",
 				what, self.hang_predicted, self.hang_confirmed
 			));
 		}
@@ -294,6 +296,7 @@ struct Runner {
 	eps_all: Vec<(u64, u64)>,
 }
 static mut HANG_BUDGET: u32 = 6;
+static mut HANG_SEEN: bool = false;
 
 impl Runner {
 	fn new(v: Var, eb: u8, ps: usize, ctx_ps: usize, seed: u64, with_table: bool) -> Runner {
@@ -334,25 +337,25 @@ impl Runner {
 		if self.v == Var::Cuckarood {
 			let eps = self.eps(nonces);
 			if rood_hangs(self.ps, edge_mask, &eps, nonces) {
+				// regression probe for the repaired endless walk (/repo df0049399): such inputs
+				// made verify spin forever. The first few are run in a child process with a
+				// timeout before the in-process call; if one hangs, none is run in-process.
 				stats.hang_predicted += 1;
 				let budget = unsafe { HANG_BUDGET };
 				if budget > 0 {
 					unsafe { HANG_BUDGET -= 1 };
-					let confirmed = hang_child(self.eb, self.ps, self.seed, nonces);
-					if confirmed {
+					if hang_child(self.eb, self.ps, self.seed, nonces) {
+						unsafe { HANG_SEEN = true };
 						stats.hang_confirmed += 1;
 						out.raw(&format!(
-							"#KNOWN-PROBE C05 cuckarood-verify-nonterminating: CuckaroodContext::verify did not return within 400 ms (child process killed) edge_bits={} proofsize={} header=seed{} keys=[{}] nonces={}",
+							"#ORACLE-FAIL C05 cuckarood-verify-nonterminating: CuckaroodContext::verify did not return within 400 ms (child process killed) edge_bits={} proofsize={} header=seed{} keys=[{}] nonces={}",
 							self.eb, self.ps, self.seed, keys_str(&self.keys), nat_list(nonces)
-						));
-					} else {
-						out.raw(&format!(
-							"#ORACLE-FAIL C05 harness hang predictor wrong: cuckarood verify returned for eb={} seed={} nonces={}",
-							self.eb, self.seed, nat_list(nonces)
 						));
 					}
 				}
-				return "hang";
+				if unsafe { HANG_SEEN } {
+					return "hang";
+				}
 			}
 		}
 		let p = Proof {
